@@ -16,6 +16,11 @@ dangling links and a link loop, with a foreign writer run from inside the sessio
 read / :w and the command under test (w, w!, wq, x, xa, wq!, xa!, :w of other names), fixed time stamps set with
 `touch -d`; oracle on snapshots taken inside the session (stat -L, contents, directory copy); model = request
 `gs` of the driver (coq/IoLinkDefs.v).
+
+Table stream (no faults; see the comment above TN): sessions with 1-5 open buffers; the write target is the current buffer's own
+path, the alternate buffer (#), a deeper slot of bufs[], a name open nowhere, a link to an open buffer's file; target as loaded /
+newer / absent / created / removed; w, w!, a,bw, wq, x, xa with and without ! and with a path argument; oracle on snapshots that
+also record % and # as the editor expands them; model = request `ts` of the driver (coq/IoTableDefs.v).
 """
 import json, os, shutil, subprocess, time
 import vlib
@@ -25,7 +30,8 @@ TRUSTED = ['harness/faultshim.c (LD_PRELOAD interposer: counts and fails open/wr
            'finite fault schedules: after the listed outcomes every call succeeds; a write(2) returning 0 for ever is excluded',
            'file time stamps are set with utime(2) to whole seconds in the past; `!touch` makes the own file newer',
            'guard stream: coreutils sh / printf / mv / rm / touch -d / stat -L / cp -P run from inside the session (`:w !sh script`) as foreign writer and snapshot taker; '
-           'stamps called newer lie 5000 s in the future, i.e. later than anything the editor writes during the run']
+           'stamps called newer lie 5000 s in the future, i.e. later than anything the editor writes during the run',
+           'table stream: the same tools plus cp -L; the current / alternate path of a snapshot is what the editor itself substitutes for % and # in `:w !sh s.sh TAG % #`']
 
 S1, S2, ALIVE = b'C03qS1zMARK', b'C03qS2zMARK', b'C03qALIVEzMARK'
 ERRNOS = {'ENOSPC': 28, 'EIO': 5, 'EINTR': 4}
@@ -1179,7 +1185,7 @@ T_SHAPES = {
 T_TABLE = {'a|b': ['a', 'b'], 'a|c|b': ['a', 'c', 'b'], 'a|d|c|b': ['a', 'd', 'c', 'b'], 'c|b|a': ['c', 'b', 'a'], 'b|a (by e #)': ['b', 'a']}
 
 
-def t_case(shape, tk, spell, state, cmd, dirty, tdirty=False, sync='read'):
+def t_case(shape, tk, spell, state, cmd, dirty, tdirty=False, sync='read', early=False, noarg=False):
     """tk = which slot the target is: cur | alt | deep | notopen | link ; spell = how the command names it"""
     table = T_TABLE[shape]
     cur = table[0]
@@ -1201,6 +1207,9 @@ def t_case(shape, tk, spell, state, cmd, dirty, tdirty=False, sync='read'):
             acts = [['write', tname, 'newer']]
         elif state == 'touched':
             acts = [['touch', tname, 'newer']]
+        elif state == 'newer, yet older than the other buffers\' files':
+            files[tname] = 'older2'
+            acts = [['write', tname, 'older']]
         elif state == 'removed':
             acts = [['remove', tname, None]]
     steps = [list(s) for s in T_SHAPES[shape]]
@@ -1212,11 +1221,15 @@ def t_case(shape, tk, spell, state, cmd, dirty, tdirty=False, sync='read'):
         steps += [['edit', 'm1'], ['w', '!', '']]
     elif sync == 'reload':
         steps += [['edit', 'm1'], ['reload']]
+    if early and acts and steps and steps[-1][0] == 'e':
+        # the foreign operation happens while ANOTHER buffer is the current one, before the last switch
+        steps.insert(len(steps) - 1, ['acts', acts])
+        acts = []
     if dirty:
         steps.append(['edit', 'm2'])
     if acts:
         steps.append(['acts', acts])
-    arg = {'none': '', '%': '%', '#': '#', 'name': tname}[spell]
+    arg = '' if noarg else {'none': '', '%': '%', '#': '#', 'name': tname}[spell]      # (noarg: the slot's file is only met by the save loop of xa)
     c = {'stream': 'table', 'shape': shape, 'slot': tk, 'state': state, 'files': files, 'links': links, 'steps': steps, 'cmd': cmd, 'arg': arg}
     if cmd.startswith('rw'):
         c['rng'] = [0, 1]
@@ -1261,6 +1274,23 @@ def table_cases():
                                      ('alt', 'name', 'newer')):
                 for cmd in ('w', 'w!', 'wq', 'x', 'xa'):
                     out.append(t_case(shape, tk, spell, state, cmd, True, sync=sync))
+        # a file that is newer than ITS buffer remembers but older than what the other slots remember
+        low = 'newer, yet older than the other buffers\' files'
+        for tk, spell in (('cur', 'none'), ('alt', '#'), ('alt', 'name')) + ((('deep', 'name'),) if n > 2 else ()):
+            for cmd in ('w', 'wq', 'x', 'xa', 'xa!'):
+                out.append(t_case(shape, tk, spell, low, cmd, True))
+                if tk != 'cur' and cmd != 'w':
+                    out.append(t_case(shape, tk, spell, low, cmd, True, tdirty=True))
+                if tk != 'cur' and spell == 'name' and 'a' in cmd:
+                    for st in (low, 'newer', 'created', 'as loaded'):
+                        for td in (False, True):
+                            out.append(t_case(shape, tk, spell, st, cmd, True, tdirty=td, noarg=True))
+                            out.append(t_case(shape, tk, spell, st, cmd, False, tdirty=td, noarg=True))
+        # the file of a buffer changes on disk while the buffer is in the background; then the editor switches to it
+        if shape != 'c|b|a':
+            for state in ('newer', 'created', 'touched'):
+                for cmd in ('w', 'w!', 'wq', 'x', 'xa'):
+                    out.append(t_case(shape, 'cur', 'none', state, cmd, True, early=True))
     # one buffer only: `#` is not set
     for cmd in ('w', 'w!', 'wq', 'x'):
         out.append({'stream': 'table', 'shape': 'a', 'slot': 'alt', 'state': 'not set', 'files': {'a': 'old', 'b': 'old'}, 'links': {},
@@ -1334,7 +1364,8 @@ def run(ctx):
     res.rule = ('one evaluation = one (command, buffer size, dirty?, target state, fault) run of the real editor under the shim; faults = every call index of the '
                 'dry-run sequence x {ENOSPC, EIO, EINTR, short 1, short n-1}, plus 2-5 consecutive faults inside one write batch (short counts then errors); '
                 'cases = single commands, multi-command histories (writes to another path / range / filter before the guarded write), two buffers; non-trivial = a fault was injected and consumed, or a guard case; distinct = distinct (case, fault).  '
-                'Guard stream: one evaluation = one editor session (name layout x foreign operations between the last read / :w and the command x command), all non-trivial')
+                'Guard stream: one evaluation = one editor session (name layout x foreign operations between the last read / :w and the command x command), all non-trivial.  '
+                'Table stream: one evaluation = one editor session with 1-5 open buffers (order of loading x which slot the write target is x state of the target file x command [path]), all non-trivial')
     work = []          # (case, sched)
     gwork = []         # cases of the guard stream (no faults)
     twork = []         # cases of the table stream (several buffers, no faults)
@@ -1361,7 +1392,19 @@ def run(ctx):
                     work.append((c['case'], [tuple(s) for s in c.get('sched', [])]))
         gwork += guard_cases()
         gwork += guard_random(rng.fork('guard sessions'), 160 if ctx.quick else 3000)
-        twork += table_cases()
+        tcs = table_cases()
+        ctx.res.extra['table_stream_structured_sessions_enumerated'] = len(tcs)
+        if ctx.quick:
+            # stratified: at most 45 sessions from every (slot of the target, state of the target) stratum, all of them in the thorough tier
+            tstrata = {}
+            for c in tcs:
+                tstrata.setdefault((c['slot'], c['state']), []).append(c)
+            tcs = []
+            for k in sorted(tstrata):
+                xs = tstrata[k]
+                rng.fork('table ' + repr(k)).shuffle(xs)
+                tcs += xs[:45]
+        twork += tcs
         twork += table_random(rng.fork('table sessions'), 200 if ctx.quick else 4000)
         bases = base_cases()
         dry = vlib.pmap(lambda c: run_case(vi, c, []), bases)
